@@ -224,6 +224,24 @@ class MyError(Exception):
     pass
 
 
+class ArgsBoom:
+    """A converter failing with exceptions whose arguments are not text (KeyError(7), OSError(2, ...), no arguments),
+    on values that hold %-format and template characters."""
+
+    def __init__(self, make):
+        self.make = make
+
+    def unicode_to_latex(self, s):
+        if "BOOM" in s:
+            raise self.make()
+        return s + "!"
+
+    latex_to_text = unicode_to_latex
+
+
+ARG_EXCS = [("KeyError(7)", lambda: KeyError(7)), ("OSError(2, 'x')", lambda: OSError(2, "x")), ("ValueError()", lambda: ValueError()), ("ValueError(None)", lambda: ValueError(None)), ("MyError(('a', 1))", lambda: MyError(("a", 1))), ("ValueError('100% {0} %s')", lambda: ValueError("100% {0} %s"))]
+
+
 def boom_variants():
     for exc in (ValueError, RuntimeError, TypeError, KeyError, IndexError, RecursionError, AttributeError, MyError, UnicodeError):
         b = Boom()
@@ -403,6 +421,26 @@ def check_contain_types(acc):
                 acc.step(("contain-type", enc), b.exc.__name__, "ok" if ok else "bad")
                 if not ok:
                     acc.violation({"oracle": "error_block_holds_original_entry", "where": "exception type " + b.exc.__name__}, {"case": case, "observed": [type(x).__name__ for x in out.blocks], "expected": "error block for the failing entry, the other entry converted"})
+    for enc in (True, False):
+        for ip in (True, False):
+            for label, make in ARG_EXCS:
+                for bad_value in ("x BOOM", "BOOM 100% {0} %s %(a)s \\1"):
+                    conv_ = ArgsBoom(make)
+                    m = LatexEncodingMiddleware(encoder=conv_, allow_inplace_modification=ip) if enc else LatexDecodingMiddleware(decoder=conv_, allow_inplace_modification=ip)
+                    lib = Library([Entry("a", "k%s{0}", [Field("t%d", bad_value), Field("u", "fine")], 0, "@a{k}"), String("s%s", bad_value), Entry("b", "j", [Field("v", "fine 50%")])])
+                    case = {"contain_exception_args": label, "value": bad_value, "encoder": enc, "inplace": ip}
+                    acc.trace()
+                    acc.case(nontrivial_key=("contain-args", label, bad_value, enc, ip))
+                    try:
+                        out = m.transform(lib)
+                    except BaseException as ex:
+                        acc.violation({"oracle": "conversion_failure_contained", "exception": type(ex).__name__}, {"case": case, "observed": repr(ex)[:200], "expected": "a middleware-error block, no exception"})
+                        continue
+                    b0, b1, b2 = out.blocks
+                    ok = isinstance(b0, MiddlewareErrorBlock) and isinstance(b0.ignore_error_block, Entry) and b0.ignore_error_block.fields[0].value == bad_value and type(b2) is Entry and b2.fields[0].value == "fine 50%!"
+                    ok = ok and isinstance(b1.ignore_error_block if isinstance(b1, MiddlewareErrorBlock) else None, String)
+                    if not ok:
+                        acc.violation({"oracle": "error_block_holds_original_entry", "where": "exception arguments / format characters in the value"}, {"case": case, "observed": [type(x).__name__ for x in out.blocks], "expected": "error blocks for the failing entry and string, the other entry converted"})
     for depth in (10, 100, 400, 1000, 3000):
         for ip in (True, False):
             for which in ("enc", "dec"):
